@@ -82,8 +82,14 @@ def loops(draw, start, end, big):
         if kind == "acc":
             fb = f"fb{k}"
             stmts.append({"id": fb, "op": "fb", "schema": "TS[int]", **({"init": init} if init is not None else {})})
-            stmts.append({"id": f"a{k}", "op": "node", "ins": [draw(st.sampled_from(srcs)), {"r": fb, "passive": passive}], "out": "TS[int]",
-                          "fn": "sum", "valid": [0], "coef": [1, 1]})
+            src_ = draw(st.sampled_from(srcs))
+            twin = passive and draw(st.integers(0, 2)) == 0
+            if twin:
+                # the same node definition over the same ports, reading the feedback ACTIVELY, wired first and eligible for
+                # sharing: the passive reader below differs from it only by the passive marker and must stay a node of its own
+                stmts.append({"id": f"tw{k}", "op": "node", "ins": [src_, fb], "out": "TS[int]", "fn": "sum", "valid": [0], "coef": [1, 1], "uniq": False})
+            stmts.append({"id": f"a{k}", "op": "node", "ins": [src_, {"r": fb, "passive": passive}], "out": "TS[int]",
+                          "fn": "sum", "valid": [0], "coef": [1, 1], **({"uniq": False} if twin else {})})
             stmts.append({"id": f"b{k}", "op": "fb_bind", "fb": fb, "src": f"a{k}"})
             edges.append((fb, f"a{k}", passive, init, "TS[int]"))
             k += 1
